@@ -156,7 +156,7 @@ type ClientConn struct {
 	SegBytes   int    `json:"seg_bytes,omitempty"`
 	LingerUs   int64  `json:"linger_us"` // how long after its last op the client keeps the transport open
 	XFF        string `json:"xff,omitempty"`
-	ClientCert string `json:"client_cert,omitempty"` // "" | good | otherca | plain (no TLS at all on a tls listener)
+	ClientCert string `json:"client_cert,omitempty"` // "" | good | otherca | expired | selfsigned | notyet (always presented) | plain (no TLS at all on a tls listener)
 	// PlainAfterFail: when the TLS handshake fails the client keeps the TCP
 	// connection and sends its queries as plain DNS-over-TCP frames on it.
 	PlainAfterFail bool `json:"plain_after_fail,omitempty"`
